@@ -7,6 +7,7 @@ mod suite_cmp;
 mod suite_axes;
 mod suite_entity;
 mod suite_ffixed;
+mod suite_fmap;
 mod suite_forest;
 mod suite_rt;
 mod idmap_hist;
@@ -54,6 +55,7 @@ fn main() {
         "scope" => suite_scope::run(seed, count, tier, &mut sink),
         "ffixed" => suite_ffixed::run(seed, count, tier, &mut sink),
         "html" => suite_html::run(seed, count, tier, &mut sink),
+        "fmap" => suite_fmap::run(seed, count, tier, &mut sink),
         _ => {
             eprintln!("unknown suite {}", suite);
             std::process::exit(2);
